@@ -453,7 +453,7 @@ func (r *R) Finish() int {
 	}
 	for s, m := range r.Sets {
 		cov["distinct_"+s] = len(m)
-		if len(m) <= 40 {
+		if len(m) <= 40 || os.Getenv("VERIF_FULL_SETS") != "" {
 			ks := make([]string, 0, len(m))
 			for k := range m {
 				ks = append(ks, k)
